@@ -99,9 +99,7 @@ func (self Reflect) isEmpty(v reflect.Value) bool {
 		return true
 	}
 	switch v.Type().Kind() {
-	case reflect.Struct:
-		return false
-	default:
+	case reflect.Chan, reflect.Func, reflect.Interface, reflect.Map, reflect.Pointer, reflect.Slice:
 		return v.IsNil()
 	}
 	return false
